@@ -530,7 +530,7 @@ def main():
                                  'scripted action decisions; a case is distinct by (program, trace) and non-trivial when it yields at least two items',
                          'stage_checks': sum(len(pr['stage']) for pr in res['programs'].values()),
                          'stage_failures': sum(1 for pr in res['programs'].values() for s in pr['stage'] if not s[1]),
-                         'distribution': {k: c[k] for k in c if k in ('errors', 'customs', 'switch_cases', 'ctor_groups', 'clone_traces', 'nontrivial_cases', 'programs_with_rewind', 'spec_cases', 'impl_spec_equal', 'spec_unavailable') or k.startswith('ref_')},
+                         'distribution': {k: c[k] for k in c if k in ('errors', 'customs', 'switch_cases', 'ctor_groups', 'clone_traces', 'nontrivial_cases', 'programs_with_rewind', 'spec_cases', 'impl_spec_equal', 'spec_unavailable', 'order_independence_cases') or k.startswith('ref_')},
                          'samples': res['samples'][:4]})
     if prop == 'C16':
         # scoping is behaviour: every corpus definition that uses `let` bindings (top-level, rule-set local, the same name in several
